@@ -85,6 +85,10 @@ fn point_ops2(d: &mut Drv, a: B2, p: Vec2<i32>) {
         d.call("expanded", || arg("box/in-place"), || { let mut x = a; x.expand_to_contain_point(p); j2(x) });
         d.call("expanded", || arg("rect"), || { let mut x = a.into_rect(); x.expand_to_contain_point(p); j2(x.into()) });
         d.call("projected", || arg("box"), || { let q = a.projected_point(p); json!([q.x, q.y]) });
+    } else {
+        // an inside-out receiver (min > max on some axis, e.g. the "empty" accumulator of a point cloud): the result must
+        // contain the point, and the in-place form must agree with the returning form
+        d.call("expanded_any", || arg("box+in-place"), || { let mut x = a; x.expand_to_contain_point(p); json!([j2(a.expanded_to_contain_point(p)), j2(x)]) });
     }
 }
 fn single3(d: &mut Drv, a: B3) {
@@ -116,6 +120,8 @@ fn point_ops3(d: &mut Drv, a: B3, p: Vec3<i32>) {
         d.call("expanded", || arg("box"), || j3(a.expanded_to_contain_point(p)));
         d.call("expanded", || arg("rect"), || j3(a.into_rect3().expanded_to_contain_point(p).into()));
         d.call("projected", || arg("box"), || { let q = a.projected_point(p); json!([q.x, q.y, q.z]) });
+    } else {
+        d.call("expanded_any", || arg("box+in-place"), || { let mut x = a; x.expand_to_contain_point(p); json!([j3(a.expanded_to_contain_point(p)), j3(x)]) });
     }
 }
 
@@ -154,6 +160,18 @@ pub fn drive_boxes(args: &[String]) {
             pair_ops!(&mut d, a, b, j2, valid2, pos2, contains_aabr, collides_with_aabr, collision_vector_with_aabr, into_rect, contains_rect, collides_with_rect, collision_vector_with_rect, rj2);
         }
     }
+    // rectangles with NEGATIVE positions and odd extents (the grid above is non-negative and even): every rectangle
+    // method must equal the box method on the converted value - centre (integer division!), containment of the corners
+    if shard == 0 {
+        for _ in 0..(if full { 4000 } else { 400 }) {
+            let (x, y, z) = (d.rng.gen_range(-7..=7), d.rng.gen_range(-7..=7), d.rng.gen_range(-7..=7));
+            let (w, h, dp) = (d.rng.gen_range(-3..=7), d.rng.gen_range(-3..=7), d.rng.gen_range(-3..=7));
+            let r = Rect::<i32, i32>::new(x, y, w, h);
+            let r3 = Rect3::<i32, i32>::new(x, y, z, w, h, dp);
+            d.call("rect_vs_box", || json!({"how": "center", "pos": [x, y], "ext": [w, h]}), || { let (a, b) = (r.center(), r.into_aabr().center()); json!([[a.x, a.y], [b.x, b.y]]) });
+            d.call("rect_vs_box", || json!({"how": "center", "pos": [x, y, z], "ext": [w, h, dp]}), || { let (a, b) = (r3.center(), r3.into_aabb().center()); json!([[a.x, a.y, a.z], [b.x, b.y, b.z]]) });
+        }
+    }
     // 3D: corners in {0,2,4}: all 729 boxes alone (shard 0), sampled points and pairs
     if shard == 0 {
         let ev3 = [0, 2, 4];
@@ -180,6 +198,8 @@ fn shapes_int(d: &mut Drv) {
     // disks and spheres on integer data through f32 / f64: decisions are exact (sqrt is monotone and exact on squares)
     let c: Vec<i32> = (0..3).map(|_| d.rng.gen_range(-6..=6)).collect();
     let r: i32 = d.rng.gen_range(0..=6);
+    // a negative radius (a degenerate shape) contains nothing and the sum of radii may then be negative: no collision
+    let rneg: i32 = d.rng.gen_range(-6..=2);
     // boundary-biased point: exactly on the circle when a Pythagorean offset fits, else anywhere near
     let offs = [(3, 4, 5), (5, 12, 13), (0, 1, 1), (6, 8, 10), (1, 1, 0), (2, 3, 0), (4, 4, 0)];
     let (ox, oy, _) = offs[d.pick(offs.len())];
@@ -195,6 +215,10 @@ fn shapes_int(d: &mut Drv) {
     d.call("disk_contains", || json!({"ty": "Sphere<f32>", "c": c, "r": r, "p": p}), || json!(sp.contains_point(g(&p)) as i64));
     d.call("disk_collides", || json!({"ty": "Disk<f64>", "c": &c[..2], "r": r, "c2": &c2[..2], "r2": r2}), || json!(dk.collides_with_disk(dk2) as i64));
     d.call("disk_collides", || json!({"ty": "Sphere<f32>", "c": c, "r": r, "c2": c2, "r2": r2}), || json!(sp.collides_with_sphere(sp2) as i64));
+    { let (dn, sn) = (Disk::new(f(&c), rneg as f64), Sphere::new(g(&c), rneg as f32));
+      d.call("disk_contains", || json!({"ty": "Disk<f64>", "c": &c[..2], "r": rneg, "p": &p[..2]}), || json!(dn.contains_point(f(&p)) as i64));
+      d.call("disk_collides", || json!({"ty": "Disk<f64>", "c": &c[..2], "r": rneg, "c2": &c2[..2], "r2": r2}), || json!(dn.collides_with_disk(dk2) as i64));
+      d.call("disk_collides", || json!({"ty": "Sphere<f32>", "c": c, "r": rneg, "c2": c2, "r2": r2 - 4}), || json!(sn.collides_with_sphere(Sphere::new(g(&c2), (r2 - 4) as f32)) as i64)); }
     let di = Disk::<i32, i32>::new(Vec2::new(c[0], c[1]), r);
     let si = Sphere::<i32, i32>::new(Vec3::new(c[0], c[1], c[2]), r);
     d.call("disk_box", || json!({"how": "aabr", "c": &c[..2], "r": r}), || j2(di.aabr()));
@@ -204,6 +228,21 @@ fn shapes_int(d: &mut Drv) {
     d.call("disk_diameter", || json!({"r": r}), || json!(di.diameter()));
     d.call("disk_diameter", || json!({"r": r}), || json!(si.diameter()));
     d.call("disk_diameter", || json!({"r": 1}), || json!(Disk::<i32, i32>::unit(Vec2::zero()).diameter() + Sphere::<i32, i32>::point(Vec3::zero()).diameter()));
+    // segments on floats with non-dyadic coordinates: distance_to_point must be the distance to projected_point (also
+    // for a query point ON the segment, where a Pythagoras-style shortcut cancels catastrophically); scaled by 2^16
+    {
+        let fr = |d: &mut Drv| d.rng.gen_range(-50..=50) as f32 / 10.0;
+        let (s3, e3) = (Vec3::new(fr(d), fr(d), fr(d)), Vec3::new(fr(d), fr(d), fr(d)));
+        let t = d.rng.gen_range(1..=9) as f32 / 10.0;
+        let on = d.pick(2) == 0;
+        let p3 = if on { s3 + (e3 - s3) * t } else { Vec3::new(fr(d), fr(d), fr(d)) };
+        let sc = |x: f64| if x.is_finite() { (x * 65536.0).round() as i64 } else { -1 };
+        let seg3 = LineSegment3 { start: s3, end: e3 };
+        d.call("seg_distance_f", || json!({"ty": "f32/3", "on": on as i64}), || json!([sc(seg3.distance_to_point(p3) as f64), sc(seg3.projected_point(p3).distance(p3) as f64)]));
+        let seg2 = LineSegment2 { start: Vec2::new(s3.x as f64, s3.y as f64), end: Vec2::new(e3.x as f64, e3.y as f64) };
+        let p2 = Vec2::new(p3.x as f64, p3.y as f64);
+        d.call("seg_distance_f", || json!({"ty": "f64/2", "on": on as i64}), || json!([sc(seg2.distance_to_point(p2)), sc(seg2.projected_point(p2).distance(p2))]));
+    }
     // measures: coefficient * pi * r^power / den, scaled by 1000
     let k = |x: f64| (x * 1000.0).round() as i64;
     let rr = r as i64;
